@@ -20,7 +20,7 @@ import sympy
 
 ZERO = sympy.Integer(0)
 
-ETA_NAMES = ["ETA1", "ETA2", "ETA10", "ETA_CL", "ETA_V", "ETA_KA", "eta3", "E", "ETA_IOV_1", "ETA_IOV_2",
+ETA_NAMES = ["ETA1", "ETA2", "ETA10", "ETA_CL", "ETA_V", "ETA_KA", "eta3", "ETA_E", "ETA_IOV_1", "ETA_IOV_2",
              "ETA_2", "ETAX", "ETA_MAT", "ETA11"]
 EPS_NAMES = ["EPS1", "EPS2", "EPS10", "ERR", "eps_add", "EPS_PROP"]
 
@@ -99,7 +99,10 @@ class Ref:
 
 
 def is_zero(e):
-    return (not isinstance(e, Adopt)) and sympy.sympify(e) == 0
+    if isinstance(e, Adopt):
+        return False
+    e = sympy.sympify(e)
+    return bool(e.is_number) and float(e) == 0  # NB sympy >= 1.13: Float(0.0) != Integer(0)
 
 
 # ----------------------------------------------------------------------------------- expressions
